@@ -10,6 +10,8 @@ import Driver.C16Lin
 import Driver.C16Mon
 import Driver.C17
 import Driver.C17Mon
+import Driver.C20
+import Driver.C20Mon
 
 def suites : List (String × Driver.Suite) :=
   Driver.C12.suites ++
@@ -22,7 +24,9 @@ def suites : List (String × Driver.Suite) :=
   Driver.C16Lin.suites ++
   Driver.C16Mon.suites ++
   Driver.C17.suites ++
-  Driver.C17Mon.suites
+  Driver.C17Mon.suites ++
+  Driver.C20.suites ++
+  Driver.C20Mon.suites
 
 def main (args : List String) : IO UInt32 := do
   match args with
